@@ -772,21 +772,33 @@ class Node:
         if new_parent._tree is not self._tree:
             raise NotImplementedError("Can only move nodes inside same tree")
 
+        # Validate all arguments before detaching the node
+        if new_parent is self or new_parent.is_descendant_of(self):
+            raise ValueError(f"Cannot move {self} to its own branch")
+
+        if before is False:
+            before = None  # append (note that `False` is also an `int`)
+        elif before is True:
+            before = 0  # prepend
+
+        if isinstance(before, Node) and (
+            before is self or before._parent is not new_parent
+        ):
+            raise ValueError(
+                f"`before=node` ({before}) must be another child of "
+                f"target node ({new_parent})"
+            )
+
         self._parent._children.pop(_index_of(self._parent._children, self))  # type: ignore
         if not self._parent._children:  # store None instead of `[]`
             self._parent._children = None
         self._parent = new_parent
 
-        if before is True:
-            before = 0  # prepend
-
         target_siblings = new_parent._children
         if target_siblings is None:
-            assert before in (None, True, False, 0), before
             new_parent._children = [self]  # type: ignore
         elif isinstance(before, Node):
-            assert before._parent is new_parent, before
-            idx = _index_of(target_siblings, before)  # raise ValueError if not found
+            idx = _index_of(target_siblings, before)
             target_siblings.insert(idx, self)
         elif isinstance(before, int):
             target_siblings.insert(before, self)
